@@ -98,7 +98,17 @@ func gen(r *hlib.Rand, n int, tier, profile string, emit func(string, ...any)) {
 				if !raced && r.Chance(1, 40) {
 					// real goroutines contend for writeLock around the real sendInsideEncrypt
 					raced = true
-					emit("lockrace %d %d", t, r.Range(2, 3))
+					pat := "hhh"
+					if c0 < reject-1000 {
+						// far from the ceiling the three send paths may be mixed (near it the final counter
+						// would depend on who wins the lock: only NextMessageCounter pins it)
+						k := "hvc"
+						pat = string([]byte{k[r.Intn(3)], k[r.Intn(3)], k[r.Intn(3)]})
+						if r.Chance(1, 3) {
+							pat = hlib.Pick(r, "hvh", "cvh", "vvv", "hvc")
+						}
+					}
+					emit("lockrace %d %d %s", t, r.Range(2, 3), pat)
 					ops++
 					continue
 				}
@@ -175,6 +185,7 @@ func newExec(t *testing.T) func([]string) string {
 	var cs *nebula.ConnectionState
 	var rec *recAEAD
 	var gate *gateCS
+	var sender *nebula.VerifCounterSender
 	var chacha, lockMode bool
 	nonceOf := func(n12 [12]byte) uint64 {
 		if chacha {
@@ -239,6 +250,7 @@ func newExec(t *testing.T) func([]string) string {
 			}
 			gate = &gateCS{inner: ek}
 			cs = nebula.VerifCounterNewCS(gate, c0)
+			sender = nebula.VerifCounterNewSender(l, cs, 7)
 			pend = map[int]pending{}
 			return "ok"
 		}
@@ -287,14 +299,27 @@ func newExec(t *testing.T) func([]string) string {
 				return "skip"
 			}
 			rounds := hlib.Atoi(a[2])
+			pat := "hhh"
+			if len(a) > 3 && len(a[3]) == 3 {
+				pat = a[3]
+			}
 			rec.mu.Lock()
 			start := len(rec.seq)
 			rec.mu.Unlock()
-			send := func(seg, scratch, nb []byte) {
-				nebula.VerifCounterSendInsideEncrypt(l, cs, 7, seg, scratch, nb)
+			// the three real send paths that reserve a counter: h = sendInsideEncrypt (data),
+			// v = prepareSendVia (relay), c = sendNoMetrics (control / test / lighthouse)
+			send := func(kind byte, payload, nb []byte) {
+				switch kind {
+				case 'v':
+					sender.PrepareSendVia(payload, nb, make([]byte, 0, 256))
+				case 'c':
+					sender.SendNoMetrics(payload, nb, make([]byte, 0, 256))
+				default:
+					sender.SendInsideEncrypt(payload, make([]byte, 0, 256), nb)
+				}
 			}
-			segA, scratchA, nbA := []byte("segment A"), make([]byte, 0, 128), make([]byte, 12)
-			segB, scratchB, nbB := []byte("segment B"), make([]byte, 0, 128), make([]byte, 12)
+			segA, nbA := []byte("payload of sender A"), make([]byte, 12)
+			segB, nbB := []byte("payload of sender B"), make([]byte, 12)
 			for r := 0; r < rounds; r++ {
 				base := nebula.VerifCounterLoad(cs)
 				aDone := make(chan struct{})
@@ -306,7 +331,7 @@ func newExec(t *testing.T) func([]string) string {
 					fired = true
 					go func() {
 						defer close(aDone)
-						send(segA, scratchA, nbA)
+						send(pat[1], segA, nbA)
 					}()
 					// let A get as far as it can while B is still inside EncryptDanger
 					deadline := time.Now().Add(8 * time.Millisecond)
@@ -316,11 +341,14 @@ func newExec(t *testing.T) func([]string) string {
 					time.Sleep(300 * time.Microsecond)
 				}
 				gate.hook.Store(&hook)
-				send(segB, scratchB, nbB)
-				send(segB, scratchB, nbB)
+				send(pat[0], segB, nbB)
 				if !fired {
+					// B never reached the cipher (NextMessageCounter refused): A simply goes next
+					fired = true
+					send(pat[1], segA, nbA)
 					close(aDone)
 				}
+				send(pat[2], segB, nbB)
 				select {
 				case <-aDone:
 				case <-time.After(5 * time.Second):
